@@ -134,3 +134,13 @@ CASES += [
         (_OS7, "                    relaxT = TDRedfieldRelaxationTensor(ham, sbi,\n                                        cutoff_time=relaxation_cutoff_time,\n",
                "                    relaxT = TDRedfieldRelaxationTensor(ham, sbi, True,\n                                        relaxation_cutoff_time,\n", 1)]},
 ]
+
+_RDM7 = "quantarhei/qm/propagators/rdmpropagator.py"
+CASES += [
+    {"name": "unwritten routine falls off its end (the repaired defect)", "kind": "mutant", "rule": "C07-L", "edits": [
+        (_RDM7, "        debug(\"(12)\")\n        raise Exception(\"Propagation with an external field and a relaxation\"\n                        +\" tensor in operator form is not implemented;\"\n                        +\" convert the tensor with convert_2_tensor()\")\n",
+                "        debug(\"(12)\")\n", 1)]},
+    {"name": "unwritten routine refuses with NotImplementedError", "kind": "twin", "edits": [
+        (_RDM7, "        debug(\"(12)\")\n        raise Exception(\"Propagation with an external field and a relaxation\"\n                        +\" tensor in operator form is not implemented;\"\n                        +\" convert the tensor with convert_2_tensor()\")\n",
+                "        debug(\"(12)\")\n        raise NotImplementedError(\"operator form with a field\")\n", 1)]},
+]
